@@ -1886,8 +1886,11 @@ impl Family for C13Family {
         // in all): whatever the bridge makes of it - one frame or several - each frame needs credit
         if r.chance(1, 12) {
             rs.clear();
-            let each = *r.pick(&[4096usize, 8192, 16_384, 65_536]);
-            for _ in 0..(4 + r.below(28)) {
+            // one such run in twelve: more than 4 MiB ready back to back (whatever bound an
+            // implementation puts on what it gathers into one frame, the rest must still move)
+            let huge = r.chance(1, 80);
+            let each = if huge { 262_144 } else { *r.pick(&[4096usize, 8192, 16_384, 65_536]) };
+            for _ in 0..(if huge { 17 + r.below(4) } else { 4 + r.below(28) }) {
                 rs.push(R::Chunk(each));
             }
         }
